@@ -148,6 +148,19 @@ func genText(c *hc.Ctx, f *canvas.Font) string {
 	if c.Chance(0.1) {
 		n = 100 + c.Intn(200)
 	}
+	if c.Chance(0.05) {
+		// more than 229 distinct glyphs: the CFF subsetter gives up and writeFont falls back to the full font
+		var rs []rune
+		for u := 0x21 + c.Intn(40); len(rs) < 300 && u < 0x2100; u++ {
+			if f.SFNT.GlyphIndex(rune(u)) != 0 {
+				rs = append(rs, rune(u))
+				if len(rs)%37 == 0 {
+					rs = append(rs, ' ')
+				}
+			}
+		}
+		return string(rs)
+	}
 	var rs []rune
 	for len(rs) < n {
 		r := ranges[c.Intn(len(ranges))]
@@ -233,22 +246,19 @@ func genPDF(c *hc.Ctx) {
 	for it := 0; it < docs; it++ {
 		fams := freshFamilies() // every document starts from freshly parsed fonts
 		spec := genSpec(c, ref)
-		checkDoc(c, fams, ref, spec, nil)
+		checkDoc(c, fams, ref, spec)
 		if it == 0 {
 			c.Sample(fmt.Sprintf("PDF %+v", spec))
 		}
 		if c.Chance(0.15) {
-			// a second document with the SAME font objects
-			dirty := map[int]bool{}
-			for _, item := range spec.Items {
-				if spec.Subset && ref[item.fontIdx].SFNT.IsCFF {
-					dirty[item.fontIdx] = true
-				}
+			// a second (and sometimes third) document with the SAME font objects: rendering must leave the
+			// loaded fonts untouched (regression class of /repo 027bf2b)
+			for rep := 0; rep < 1+c.Intn(2); rep++ {
+				spec2 := genSpec(c, ref)
+				spec2.Reused = true
+				c.Count("pdf:later-document-same-font-objects")
+				checkDoc(c, fams, ref, spec2)
 			}
-			spec2 := genSpec(c, ref)
-			spec2.Reused = true
-			c.Count("pdf:second-document-same-font-objects")
-			checkDoc(c, fams, ref, spec2, dirty)
 		}
 	}
 }
@@ -270,7 +280,7 @@ func layout(fonts []*canvas.FontFamily, it docItem) *canvas.Text {
 	return rt.ToText(0, 0, canvas.Left, canvas.Top, 0, 0)
 }
 
-func checkDoc(c *hc.Ctx, fonts []*canvas.FontFamily, ref []*canvas.Font, spec docSpec, dirty map[int]bool) {
+func checkDoc(c *hc.Ctx, fonts []*canvas.FontFamily, ref []*canvas.Font, spec docSpec) {
 	fail := func(kind, desc string) { failK(c, kind, desc, spec) }
 	var buf bytes.Buffer
 	var exp []expSpan
@@ -287,7 +297,7 @@ func checkDoc(c *hc.Ctx, fonts []*canvas.FontFamily, ref []*canvas.Font, spec do
 				if span.IsText() {
 					v := span.Direction == canvasText.TopToBottom || span.Direction == canvasText.BottomToTop
 					exp = append(exp, expSpan{span.Face.Font, span.Glyphs, v, k, span.Width, span.Face.MmPerEm})
-					if span.Face.FauxBold == 0 && span.Face.FauxItalic == 0 && !dirty[it.fontIdx] {
+					if span.Face.FauxBold == 0 && span.Face.FauxItalic == 0 {
 						// what RenderAsPath draws for this span: every outline at face offset + prefix sums of the
 						// laid-out advances (x and y), judged against the pristine copy of the font
 						if bad := spanPathPlacement(span, ref[it.fontIdx].SFNT); bad != "" {
@@ -321,15 +331,12 @@ func checkDoc(c *hc.Ctx, fonts []*canvas.FontFamily, ref []*canvas.Font, spec do
 	for _, bad := range placement {
 		fail("topath-placement", bad)
 	}
-	// A font used in both writing directions has two font objects that share one subsetter; Close
-	// subsets the font once per object. For a CFF font the second Subset runs on the program the first
-	// one mutated (recorded third-party defect): that class, and only that class, gets a suffix.
-	twice := map[*canvas.Font]bool{}
+	// a font used in both writing directions has two font objects that share one subsetter; Close
+	// subsets the font once per object (each on a private copy since /repo 027bf2b)
 	for f := range usedV {
 		if usedH[f] {
 			c.Count("pdf:same-font-H-and-V")
 			if spec.Subset && f.SFNT.IsCFF {
-				twice[f] = true
 				c.Count("pdf:CFF font subset twice in one document")
 			}
 		}
@@ -381,14 +388,7 @@ func checkDoc(c *hc.Ctx, fonts []*canvas.FontFamily, ref []*canvas.Font, spec do
 		sp := exp[i]
 		c.Count("pdf:item " + spec.Items[sp.item].Kind)
 		src := ref[spec.Items[sp.item].fontIdx].SFNT // pristine copy of the span's font
-		resetClass := ""
-		if twice[sp.font] {
-			resetClass = ":cff-font-subset-twice-in-one-document"
-		}
-		if dirty[spec.Items[sp.item].fontIdx] {
-			// recorded defect class: a CFF font object that went through a subsetting render before
-			resetClass = ":cff-font-object-reused-after-subset-render"
-		}
+		resetClass := ""                             // no recorded defect class attaches a suffix any more; kept for future narrow classes
 		upm := int(src.Head.UnitsPerEm)
 		fi := infos[ob.fontName]
 		if fi == nil {
@@ -430,11 +430,10 @@ func checkDoc(c *hc.Ctx, fonts []*canvas.FontFamily, ref []*canvas.Font, spec do
 		if sz := sp.glyphs0Size(); sz != 0 && math.Abs(ob.size-sz) > 1e-4*(1+ob.size) {
 			fail("font-size", fmt.Sprintf("Tf size %v, face size %v mm", ob.size, sz))
 		}
-		if resetClass == "" && spec.Subset && !fi.HasMap && src.IsCFF && fi.Program.NumGlyphs() == src.NumGlyphs() && src.NumGlyphs() > 1 {
-			// recorded class: Subset failed on a fresh CFF font ("WARNING: font subsetting failed"), writeFont
-			// embedded the full program but kept subset codes and wrote no CIDToGIDMap
-			resetClass = ":subset-failed-full-font-embedded"
-			c.Count("pdf:subsetting failed, full CFF program embedded")
+		if spec.Subset && fi.Program.NumGlyphs() == src.NumGlyphs() && src.NumGlyphs() > 1 {
+			// Subset failed ("WARNING: font subsetting failed"): the full program is embedded and the font object
+			// must look like an unsubsetted one (regression class of /repo 788048f: cidtogid-presence below)
+			c.Count("pdf:subsetting failed, full program embedded")
 		}
 		// span width = the face's scale times the summed advances (what TextWidth measures)
 		units := int64(0)
